@@ -395,8 +395,8 @@ def replay(case):
 def _search(args):
     mode, sizes, events, second_before, cap = args
     if mode == 'one':
-        return bfs(lambda: Product1(sizes), events)
-    return bfs(lambda: Product2(sizes, second_before), events, max_states=cap)
+        return bfs(lambda: Product1(sizes), events, max_states=cap, stop_after_violations=300)
+    return bfs(lambda: Product2(sizes, second_before), events, max_states=cap, stop_after_violations=300)
 
 
 def run(ctx):
